@@ -571,6 +571,9 @@ func init() {
 		{"CeilWithPrecision(1)", func() func(ro.Observable[float64]) ro.Observable[float64] { return ro.CeilWithPrecision(1) }, func(x float64) float64 { return math.Ceil(x*10) / 10 }},
 		{"FloorWithPrecision(-1)", func() func(ro.Observable[float64]) ro.Observable[float64] { return ro.FloorWithPrecision(-1) }, func(x float64) float64 { return math.Floor(x/10) * 10 }},
 		{"CeilWithPrecision(-1)", func() func(ro.Observable[float64]) ro.Observable[float64] { return ro.CeilWithPrecision(-1) }, func(x float64) float64 { return math.Ceil(x/10) * 10 }},
+		// more decimal places than a float64 has: the arbitrary-precision path; the value is unchanged
+		{"FloorWithPrecision(400)", func() func(ro.Observable[float64]) ro.Observable[float64] { return ro.FloorWithPrecision(400) }, func(x float64) float64 { return x }},
+		{"CeilWithPrecision(400)", func() func(ro.Observable[float64]) ro.Observable[float64] { return ro.CeilWithPrecision(400) }, func(x float64) float64 { return x }},
 	}
 	for _, fo := range fops {
 		fo := fo
